@@ -1,6 +1,7 @@
 import Hgxv.Proofs.C14Gen
 import Hgxv.Proofs.C14Hoad
 import Hgxv.Proofs.C14Shuffle
+import Hgxv.Proofs.C14Raw
 /-! # C14 — random generators honour their structural contracts and their seeds
 
 Property theorems about the model `Hgxv/Model/C14.lean`.  Every statement is for ALL draws that satisfy the
@@ -476,3 +477,182 @@ example : ShuffleAllOK ⟨true, [0, 1, 2, 3], [([0, 1], (2, 1)), ([1, 2], (3, 2)
     subst hc
     decide
   · intro c hc; simp at hc
+
+/-! ## argument VALUE TYPES: which number a routine works with (`Hgxv/Model/C14Raw.lean`)
+
+The requested numbers reach the routines as Python objects (`Num`: int / bool / real of any type / text).  The theorems
+above speak about the numbers the routines WORK WITH; the ones below say which numbers these are. -/
+
+/-- The two conversions the generators apply to a requested number.  `loopCount x = k` is the exit point of
+`while len(acc) < x` under Python's own exact comparison: the test holds at every length below `k` and fails at `k`;
+it has no value exactly when the test raises (a `str`).  `int(x)` of a non-negative real is its floor.  The two differ by
+at most one and agree exactly on integral values - for `3.7` they are 3 and 4. -/
+theorem C14_count_conversions (x : Num) :
+    (∀ k, x.loopCount = some k → (∀ j, j < k → x.natLt j = some true) ∧ x.natLt k = some false) ∧
+    (x.loopCount = none ↔ ∀ j, x.natLt j = none) ∧
+    (∀ n d k c, x = .real n d → 0 ≤ n → x.toInt = some k → x.loopCount = some c →
+      k * ((d : Int) + 1) ≤ n ∧ n < (k + 1) * ((d : Int) + 1) ∧ k ≤ c ∧ (c : Int) ≤ k + 1 ∧
+      (n = k * ((d : Int) + 1) → (c : Int) = k)) := by
+  refine ⟨fun k h => Num.loopCount_spec x k h, Num.loopCount_none x, ?_⟩
+  intro n d k c hx hn hk hc
+  subst hx
+  obtain ⟨_, h1, h2⟩ := Num.toInt_real_floor n d k hn hk
+  obtain ⟨h3, h4, h5⟩ := Num.toInt_le_loopCount n d k c hn hk hc
+  exact ⟨h1, h2, h3, h4, h5⟩
+
+/-- with integer `n`, sizes and `num_shuffles` the routine on the caller's raw counts IS the routine on `int(count)` -/
+theorem scaleFreeRaw_int (n : Nat) (sizes : List Nat) (counts : List Num) (cs : List Int) (scaleKeys : List Nat)
+    (correlated : Bool) (corr : Option Rat) (shuffles : Int) (groups : List (List (List Nat)))
+    (hconv : optAll Num.toInt counts = some cs) :
+    scaleFreeRaw (Num.ofNat n) (sizes.map Num.ofNat) counts scaleKeys correlated corr (.int shuffles) groups =
+      scaleFree n sizes cs scaleKeys correlated corr shuffles groups := by
+  have h1 : optAll Num.natValue (sizes.map Num.ofNat) = some sizes :=
+    optAll_map_some Num.natValue Num.ofNat Num.natValue_int sizes
+  have h2 : (sizes.map Num.ofNat).map (Num.choiceK n) = sizes := by
+    rw [List.map_map]
+    conv => rhs; rw [← List.map_id sizes]
+    apply List.map_congr_left
+    intro s _
+    exact Num.choiceK_int n s
+  have h3 : (if (sizes.map Num.ofNat).isEmpty then (Num.ofNat n).index
+      else (Num.ofNat n).npSize) = some (n : Int) := by
+    split <;> rfl
+  unfold scaleFreeRaw
+  rw [h3]
+  simp only [h1, hconv, shufflesArg, Num.index, Int.toNat_natCast, h2, scaleFree]
+  simp
+
+/-- `scale_free_hypergraph` returns exactly `int(count)` distinct hyperedges per size WHATEVER THE VALUE TYPE of the
+requested numbers (`3.7` and `"3"` mean 3, `True` means 1): hypotheses and conclusion of `C14_scale_free` with
+`cs = [int(c) for c in counts]`; a count whose conversion raises, or is negative, is refused. -/
+theorem C14_scale_free_counts (n : Nat) (sizes : List Nat) (counts : List Num) (cs : List Int) (scaleKeys : List Nat)
+    (correlated : Bool) (corr : Option Rat) (shuffles : Int) (groups : List (List (List Nat)))
+    (hconv : optAll Num.toInt counts = some cs)
+    (hvalid : sfValid sizes cs scaleKeys correlated corr shuffles = true)
+    (hkeys : sizes.Nodup) (hlen : counts.length = sizes.length)
+    (hdraws : SfDrawsOK n (sizes.zip (cs.map Int.toNat)) groups) :
+    (∀ p ∈ counts.zip cs, p.1.toInt = some p.2 ∧ 0 ≤ p.2) ∧
+    ∃ h, scaleFreeRaw (Num.ofNat n) (sizes.map Num.ofNat) counts scaleKeys correlated corr (.int shuffles)
+          groups = some h ∧
+      h.nodes = List.range n ∧ (keys h).Nodup ∧
+      (∀ sc ∈ sizes.zip (cs.map Int.toNat), countSize h sc.1 = sc.2) ∧
+      (∀ s, s ∉ sizes → countSize h s = 0) ∧
+      (∀ e ∈ keys h, e.length ∈ sizes ∧ e.Nodup ∧ (∀ x ∈ e, x < n)) := by
+  have hl : cs.length = sizes.length := (optAll_length _ _ _ hconv).trans hlen
+  refine ⟨?_, ?_⟩
+  · intro p hp
+    refine ⟨optAll_mem _ _ _ hconv p hp, ?_⟩
+    have hc : cs.all (fun c => !(c < 0)) = true := by
+      simp only [sfValid, Bool.and_eq_true] at hvalid
+      exact hvalid.2
+    have := List.all_eq_true.mp hc p.2 (List.of_mem_zip hp).2
+    simpa using this
+  · rw [scaleFreeRaw_int n sizes counts cs scaleKeys correlated corr shuffles groups hconv]
+    exact C14_scale_free n sizes cs scaleKeys correlated corr shuffles groups hvalid hkeys hl hdraws
+
+/-- `optAll` refuses the whole request when one conversion raises: `"3.0"`, `"abc"` (`int` raises ValueError) -/
+example : scaleFreeRaw (.int 4) [.int 2] [.text none] [2] true none (.int 0) [] = none := by decide
+
+/-- non-vacuity and the witness for the seeded change C14-d1: a request of `3.7` hyperedges of size 2 on 4 nodes with
+four recorded choices.  The code (`int(count)` stored back) stops after three distinct hyperedges and leaves the fourth
+choice unused (`sfReturned = false`: this recording does not belong to a run of the code); the variant whose generation
+loop reads the raw value collects four. -/
+example : (scaleFreeRaw (.int 4) [.int 2] [.real 37 9] [2] true none (.int 0) [[[3, 1], [0, 2], [2, 1], [0, 3]]]).map keys
+      = some [[1, 3], [0, 2], [1, 2]] ∧
+    (scaleFreeUnconverted 4 [2] [.real 37 9] [2] true none 0 [[[3, 1], [0, 2], [2, 1], [0, 3]]]).map keys
+      = some [[1, 3], [0, 2], [1, 2], [0, 3]] ∧
+    Num.toInt (.real 37 9) = some 3 ∧ Num.loopCount (.real 37 9) = some 4 ∧
+    Num.toInt (.text (some 4)) = some 4 ∧ Num.loopCount (.text (some 4)) = none ∧
+    Num.toInt (.real (-1) 1) = some 0 ∧ Num.toInt (.real 5 0) = some 5 ∧ Num.loopCount (.real 5 0) = some 5 := by
+  decide
+
+/-- `random_hypergraph` on the caller's raw counts is the routine on the number of passes of `while len(edges) <
+count` (`ceil` of a real, 0 for a non-positive one); hence, with `C14_random`: at most that many hyperedges per size and
+at least one when it is positive.  A count that cannot be compared with a length (`str`) is refused. -/
+theorem C14_random_counts (n : Nat) (sizes : List Nat) (counts : List Num) (cs : List Nat)
+    (groups : List (List (List Nat))) (hconv : optAll Num.loopCount counts = some cs)
+    (hkeys : sizes.Nodup) (hlen : counts.length = sizes.length) (hdraws : RandomDrawsOK n (sizes.zip cs) groups) :
+    randomHypergraphRaw? (Num.ofNat n) (sizes.map Num.ofNat) counts groups
+      = some (randomHypergraph n (sizes.zip cs) groups) ∧
+    (randomHypergraph n (sizes.zip cs) groups).nodes = List.range n ∧
+    (∀ sc ∈ sizes.zip cs, countSize (randomHypergraph n (sizes.zip cs) groups) sc.1 ≤ sc.2 ∧
+      (1 ≤ sc.2 → 1 ≤ countSize (randomHypergraph n (sizes.zip cs) groups) sc.1)) ∧
+    (∀ e ∈ keys (randomHypergraph n (sizes.zip cs) groups), e.length ∈ sizes ∧ e.Nodup ∧ (∀ x ∈ e, x < n)) := by
+  have hl : cs.length = sizes.length := (optAll_length _ _ _ hconv).trans hlen
+  have hmap : (sizes.zip cs).map (·.1) = sizes := by
+    apply List.map_fst_zip; simp [hl]
+  have h2 : (sizes.map Num.ofNat).map (Num.sampleK n) = sizes := by
+    rw [List.map_map]
+    conv => rhs; rw [← List.map_id sizes]
+    apply List.map_congr_left
+    intro s _
+    exact Num.sampleK_int n s
+  have h := C14_random n (sizes.zip cs) groups (by rw [hmap]; exact hkeys) hdraws
+  refine ⟨?_, h.2.1, h.2.2.2.2.2.1, ?_⟩
+  · simp only [randomHypergraphRaw?, Num.index_ofNat, hconv, Int.toNat_natCast, h2]
+    exact h.1
+  · intro e he
+    obtain ⟨⟨sc, hsc, hl', _⟩, hnd, hlt, _⟩ := h.2.2.2.2.1 e he
+    refine ⟨?_, hnd, hlt⟩
+    rw [hl', ← hmap]
+    exact List.mem_map_of_mem (f := (·.1)) hsc
+
+/-- non-vacuity: `{2: 2.5}` makes three samples (the third repeats the first), `{2: "3"}` is refused -/
+example : (randomHypergraphRaw? (.int 5) [.int 2] [.real 5 1] [[[4, 1], [0, 2], [1, 4]]]).map keys = some [[1, 4], [0, 2]] ∧
+    randomHypergraphRaw? (.int 5) [.int 2] [.text (some 3)] [[[4, 1], [0, 2], [1, 4]]] = none ∧
+    randomHypergraphRaw? (.real 5 0) [.int 2] [.int 1] [[[4, 1]]] = none ∧
+    randomHypergraphRaw? (.int 5) [.real 2 0] [.int 1] [[[4, 1]]] = none ∧
+    (randomHypergraphRaw? (.int 5) [.real 2 0] [.real (-1) 1] [[]]).map keys = some [] := by decide
+
+/-- `add_random_edges(hg, k, size=s)` on the caller's raw `k` is the routine on the number of passes of
+`while len(edges) < k` -/
+theorem C14_add_random_edges_count (h : HG) (k : Num) (kc s : Nat) (inplace : Bool) (draws : List (List Nat))
+    (hk : k.loopCount = some kc) :
+    addRandomEdgesRaw h k none (some (Num.ofNat s)) inplace draws = addRandomEdges h kc none (some s) inplace draws ∧
+    addRandomEdgesRaw h k (some (Num.ofNat s)) none inplace draws = addRandomEdges h kc (some s) none inplace draws := by
+  simp [addRandomEdgesRaw, resolveSizeRaw, hk, Num.sampleK_int, Num.succ_ofNat, addRandomEdges, resolveSize]
+
+/-- `HOADmodel` on raw `N`, `time` and orders of any value type: whenever the call returns, `N` and `time` were
+indices (or never looked at: no order / no time step, then nothing is emitted) and every emitted record has a time below
+`time`, distinct nodes below `N`, and `order + 1` nodes for an order of the dict that IS an index -/
+theorem C14_hoad_raw (N time : Num) (acts : List (Num × List Rat)) (draws : List HoadDraw) (out : List (Nat × Edge))
+    (h : hoadRaw N time acts draws = .done out) :
+    out.Nodup ∧ ∀ r ∈ out, ∃ n t : Int, N.index = some n ∧ time.index = some t ∧ (r.1 : Int) < t ∧
+      ∃ oa ∈ acts, ∃ o : Int, oa.1.index = some o ∧ 0 ≤ o ∧ (r.2.length : Int) = o + 1 ∧ r.2.Nodup ∧
+        ∀ x ∈ r.2, (x : Int) < n := by
+  have empty : ∀ ds, hoad 0 0 [] ds = .done out → out = [] := by
+    intro ds hd
+    unfold hoad hoadOrders at hd
+    cases ds <;> simp at hd
+    exact hd.symm
+  unfold hoadRaw at h
+  split at h
+  · have := empty _ h; subst this; simp
+  · split at h
+    · split at h <;> cases h
+    · rename_i t ht
+      split at h
+      · have := empty _ h; subst this; simp
+      · split at h
+        · split at h <;> cases h
+        · rename_i hpos n hn
+          obtain ⟨h1, h2⟩ := C14_hoad _ _ _ _ _ h
+          refine ⟨h1, fun r hr => ?_⟩
+          obtain ⟨ht', oa', hoa', hlen, hnd, hlt⟩ := h2 r hr
+          obtain ⟨oa, hoa, rfl⟩ := List.mem_map.mp hoa'
+          simp only at hlen
+          have hle : r.2.length ≤ n.toNat := by
+            have := List.Nodup.length_le_of_subset hnd (l₂ := List.range n.toNat)
+              (fun x hx => List.mem_range.mpr (hlt x hx))
+            simpa using this
+          obtain ⟨o, ho1, ho2, ho3⟩ := Num.sampleK_le n.toNat oa.1 (by omega)
+          refine ⟨n, t, hn, ht, by omega, oa, hoa, o, ho1, ho2, by omega, hnd, fun x hx => ?_⟩
+          have := hlt x hx
+          omega
+
+/-- non-vacuity: `N = True` (one node), order `False` (no partner): the node fires alone; a float order raises when the
+first node fires, a float `time` raises before any draw, and is never looked at when there is no order -/
+example : hoadRaw (.bool true) (.int 1) [(.bool false, [1])] [⟨1/2, true, []⟩] = .done [(0, [0])] ∧
+    hoadRaw (.int 2) (.int 1) [(.real 1 0, [1, 1])] [⟨1/2, false, []⟩] = .raised [] ∧
+    hoadRaw (.int 2) (.real 1 0) [(.int 1, [1, 1])] [] = .raised [] ∧
+    hoadRaw (.int 2) (.real 1 0) [] [] = .done [] := by decide +kernel
